@@ -466,11 +466,17 @@ def _bwd_closed(prog, fm: FuncModel, e, at, depth) -> tuple[bool, str]:
             if d.kind == "for":
                 tgt = d.ast.target
                 it = d.ast.iter
+                while isinstance(it, ast.Call) and callee_name(it) in ("sorted", "list", "tuple") and len(it.args) == 1:
+                    it = it.args[0]
                 if isinstance(it, ast.Name):
                     # element of a list of (block, nodes) pairs or of source SCC lists
                     r = _list_of_closed(prog, fm, it.id, d, depth + 1)
                     if not r[0]:
                         return r
+                    continue
+                if isinstance(it, ast.Call) and callee_name(it) == "source_SCCs":
+                    if not _source_sccs_closed(prog):
+                        return False, "source_SCCs no longer keeps only components equal to their backward closure"
                     continue
                 return False, f"iterates `{text(it)[:40]}`"
             if d.kind == "entry":
@@ -483,6 +489,33 @@ def _bwd_closed(prog, fm: FuncModel, e, at, depth) -> tuple[bool, str]:
                 return r
         return True, ""
     return False, f"`{text(e)[:40]}`"
+
+
+def _source_sccs_closed(prog) -> bool:
+    """every list that source_SCCs returns holds the names of a component X under the condition
+    backward_reachable(X) == X (read symbolically: loop + append and comprehension + filter are the same thing)"""
+    from .symstr import SymEval
+    import re as _re
+    g = prog.fm("biobalm.interaction_graph_utils", "source_SCCs")
+    se = SymEval(g)
+    rets = [r for r in own_walk(g.f.node) if isinstance(r, ast.Return) and r.value is not None]
+    if not rets:
+        return False
+    for r in rets:
+        col = se.collection(r.value, g.cfgn(r))
+        if not col:
+            return False
+        for el, cnd in col:
+            m = _re.match(r"^map\((\w+)\.get_variable_name\(elem\((.+)\)\),(.+)\)$", el)
+            if not m:
+                return False
+            X = m.group(3)
+            if m.group(2) != X:
+                return False
+            want = logic.B("eq:" + "|".join(sorted([f"{m.group(1)}.backward_reachable({X})", X])))
+            if want[1] not in logic.atoms(cnd) or not logic.implies(cnd, want):
+                return False
+    return True
 
 
 def _list_of_closed(prog, fm: FuncModel, name: str, at, depth) -> tuple[bool, str]:
@@ -530,12 +563,7 @@ def _list_of_closed(prog, fm: FuncModel, name: str, at, depth) -> tuple[bool, st
                 return r
             continue
         if isinstance(v, ast.Call) and callee_name(v) == "source_SCCs":
-            g = prog.fm("biobalm.interaction_graph_utils", "source_SCCs")
-            tests = [t for t in own_walk(g.f.node) if isinstance(t, ast.Compare) and "backward_reachable" in text(t)]
-            apps = [a for a in own_walk(g.f.node) if isinstance(a, ast.Call) and isinstance(a.func, ast.Attribute) and a.func.attr == "append"]
-            ok = bool(tests) and isinstance(tests[0].ops[0], ast.Eq) and bool(apps) and all(
-                logic.implies(g.pc(g.cfgn(a)), g.formula(tests[0], g.cfgn(tests[0]))) for a in apps)
-            if not ok:
+            if not _source_sccs_closed(prog):
                 return False, "source_SCCs no longer keeps only components equal to their backward closure"
             continue
         return False, f"`{name}` = `{text(v)[:40]}`"
